@@ -101,3 +101,137 @@ def coq_case(case, res, strict_err=True):
 HEADER = ('From DA Require Import Prelude NDArray Array.\n'
           'From DA.Model Require Import Value Ops.\n'
           'Open Scope string_scope.\n')
+
+# ---------------------------------------------------------------- indexing (C01, C02, C03)
+# index JSON: "full" | {"s": label} | {"l": [labels], "as": "list"|"array"} | {"m": [bools]}
+#             | {"sl": [lo, hi, step]} | {"ps": int} | {"pl": [ints]} | {"psl": [a, b, c]}
+def py_label(l):
+    return tuple(py_label(x) for x in l) if isinstance(l, list) else l
+
+def py_idx(ix):
+    if ix == 'full': return slice(None)
+    if 's' in ix: return py_label(ix['s'])
+    if 'l' in ix:
+        return np.array(ix['l']) if ix.get('as') == 'array' and len(ix['l']) > 0 else [py_label(x) for x in ix['l']]
+    if 'm' in ix: return np.array(ix['m'], dtype=bool)
+    if 'sl' in ix: return slice(*ix['sl'])
+    if 'ps' in ix: return ix['ps']
+    if 'pl' in ix: return list(ix['pl'])
+    if 'psl' in ix: return slice(*ix['psl'])
+    raise ValueError(ix)
+
+def cq_idx(ix):
+    oz = lambda z: 'None' if z is None else '(Some %s)' % cq_z(z)
+    ol = lambda l: 'None' if l is None else '(Some %s)' % cq_label(l)
+    if ix == 'full': return 'IFull'
+    if 's' in ix: return '(IScalar %s)' % cq_label(ix['s'])
+    if 'l' in ix: return '(IList %s)' % cq_labs(ix['l'])
+    if 'm' in ix: return '(IMask %s)' % cq_list(['true' if b else 'false' for b in ix['m']])
+    if 'sl' in ix: return '(ISlice %s %s %s)' % (ol(ix['sl'][0]), ol(ix['sl'][1]), oz(ix['sl'][2]))
+    if 'ps' in ix: return '(PScalar %s)' % cq_z(ix['ps'])
+    if 'pl' in ix: return '(PList %s)' % cq_list([cq_z(z) for z in ix['pl']])
+    if 'psl' in ix: return '(PSlice %s %s %s)' % tuple(oz(z) for z in ix['psl'])
+    raise Unsupported('index %r' % (ix,))
+
+def cq_form(form):
+    if 'tuple' in form: return '(FTuple %s)' % cq_list([cq_idx(i) for i in form['tuple']])
+    if 'dict' in form: return '(FDict %s)' % cq_list(['(%s, %s)' % (cq_axref(r), cq_idx(i)) for r, i in form['dict']])
+    if 'axis' in form: return '(FAxisKw %s %s)' % (cq_axref(form['axis'][0]), cq_idx(form['axis'][1]))
+    raise Unsupported('form')
+
+def cq_tol(tol):
+    if tol is None: return 'TolNone'
+    if tol == 'inf': return 'TolInf'
+    return '(TolQ %s)' % cq_q(tol)
+
+def py_tol(tol):
+    return None if tol is None else (np.inf if tol == 'inf' else tol)
+
+def py_form(form):
+    if 'tuple' in form:
+        t = tuple(py_idx(i) for i in form['tuple'])
+        return t, {}
+    if 'dict' in form:
+        return {r: py_idx(i) for r, i in form['dict']}, {}
+    return py_idx(form['axis'][1]), {'axis': form['axis'][0]}
+
+def with_by(by, f):
+    D = da()
+    old = D.get_option('indexing.by')
+    D.set_option('indexing.by', by)
+    try: return f()
+    finally: D.set_option('indexing.by', old)
+
+def rebuild_by(a, by):
+    """the same array constructed while indexing.by = by (so that a._indexing is by)"""
+    D = da()
+    if by == 'label': return a
+    return with_by(by, lambda: D.DimArray(a.values, axes=a.axes, **a.attrs))
+
+# spelling -> effective mode given 'by'
+def effective_mode(spelling, by):
+    if spelling in ('loc', 'sel', 'nloc'): return 'label'
+    if spelling in ('iloc', 'isel', 'take_pos'): return 'position'
+    if spelling == 'take_lab': return 'label'
+    if spelling == 'ix': return 'position' if by == 'label' else 'label'
+    return by   # getitem, take
+
+@op('get')
+class _:
+    def run(a, ins, spelling, form, tol, keepdims, by):
+        a = rebuild_by(a, by)
+        idx, kw = py_form(form)
+        t = py_tol(tol)
+        if spelling == 'getitem':
+            if kw or t is not None or keepdims: raise Unsupported('getitem with kwargs')
+            return a[idx if not (isinstance(idx, tuple) and len(idx) == 1) else idx[0]] if not isinstance(idx, tuple) or len(idx) != 0 else a[()]
+        if spelling in ('take', 'take_pos', 'take_lab'):
+            if spelling == 'take_pos': kw['indexing'] = 'position'
+            if spelling == 'take_lab': kw['indexing'] = 'label'
+            return a.take(idx, tol=t, keepdims=keepdims, **kw)
+        if spelling in ('loc', 'iloc', 'ix', 'nloc'):
+            if kw or keepdims: raise Unsupported('accessor with kwargs')
+            return getattr(a, spelling)[idx]
+        if spelling in ('sel', 'isel'):
+            if not isinstance(idx, dict) or not all(isinstance(k, str) for k in idx): raise Unsupported('sel needs names')
+            return getattr(a, spelling)(**idx)
+        raise Unsupported(spelling)
+    def coq(spelling, form, tol, keepdims, by):
+        if spelling == 'nloc': tol = 'inf'
+        return '(OGet %s %s %s)' % (cq_form(form), cq_tol(tol), 'true' if keepdims else 'false')
+
+def cq_rhs(r):
+    if 'scalar' in r:
+        v = r['scalar']
+        k = 'b' if isinstance(v, bool) else 'i' if isinstance(v, int) else 'f' if isinstance(v, float) else 'U' if isinstance(v, str) else 'O'
+        return '(RScalar %s %s)' % (cq_cell(v), cq_kind(k))
+    a = np.array(r['flat'], dtype=_DT_RHS[r['dtype']]).reshape(r['shape'])
+    return '(RArr {| sh := %s; dat := %s; kd := %s |})' % (cq_list(['%d' % n for n in r['shape']]),
+                                                        cq_list([cq_cell(cell_json(x)) for x in (a.ravel() if a.dtype.kind == 'O' else a.ravel().tolist())]), cq_kind(r['dtype']))
+_DT_RHS = {'f': float, 'i': np.int64, 'b': bool, 'O': object}
+
+def py_rhs(r):
+    if 'scalar' in r: return r['scalar']
+    return np.array(r['flat'], dtype=_DT_RHS[r['dtype']]).reshape(r['shape'])
+
+@op('put')
+class _:
+    def run(a, ins, spelling, form, tol, rhs, cast, inplace, by):
+        a = rebuild_by(a, by)
+        idx, kw = py_form(form)
+        t = py_tol(tol); v = py_rhs(rhs)
+        if spelling == 'setitem':
+            if kw or t is not None or cast: raise Unsupported('setitem kwargs')
+            b = a.copy(); b[idx if not (isinstance(idx, tuple) and len(idx) == 1) else idx[0]] = v; return b
+        if spelling in ('put', 'put_pos'):
+            if spelling == 'put_pos': kw['indexing'] = 'position'
+            if inplace:
+                b = a.copy(); r = b.put(idx, v, tol=t, cast=cast, inplace=True, **kw)
+                if r is not None: raise AssertionError('put(inplace=True) returned a value')
+                return b
+            return a.put(idx, v, tol=t, cast=cast, inplace=False, **kw)
+        if spelling in ('loc', 'iloc', 'ix'):
+            b = a.copy(); getattr(b, spelling)[idx] = v; return b
+        raise Unsupported(spelling)
+    def coq(spelling, form, tol, rhs, cast, inplace, by):
+        return '(OPut %s %s %s %s)' % (cq_form(form), cq_tol(tol), cq_rhs(rhs), 'true' if cast else 'false')
